@@ -262,6 +262,14 @@ func (f *Frame) loopMods(li *loopInfo) (map[string]bool, bool, map[string][]ssa.
 					mod[k] = true
 					addRoot(k, x.Map)
 				}
+			case *ssa.Next:
+				if rng, ok := x.Iter.(*ssa.Range); ok {
+					if mt, ok := rng.X.Type().Underlying().(*types.Map); ok {
+						k := f.visitedKey(rng, mt).Name
+						mod[k] = true
+						unknown[k] = true
+					}
+				}
 			case ssa.CallInstruction:
 				ks, a := f.callMods(x)
 				if a {
